@@ -12,6 +12,7 @@ INVARIANT OrientationFree
 INVARIANT RingRadius
 INVARIANT CodeArithmetic
 INVARIANT RingContiguous
+INVARIANT NeighbourListIsGeometric
 INVARIANT LabelsInjective
 INVARIANT RingPosBijection
 INVARIANT RingsToHoldExact
